@@ -27,18 +27,19 @@ META = {
                   "cost <= |a|+|b|); common_prefix_kept (table not exhausted: the script starts with a Common edit at least as "
                   "long as the leading run the search finds equal); search_lower_bound (furthest-point theorem, the lower-bound "
                   "half of minimality: when the search reaches the corner after pf+1 iterations of its p loop, no path of the "
-                  "edit graph to the corner has fewer than pf deletions, so no script is cheaper than delta+2pf). The model is tied to the code by comparing the complete diff tree (kinds, splits, payloads, nested "
+                  "edit graph to the corner has fewer than pf deletions, so no script is cheaper than delta+2pf); "
+                  "script_is_shortest (MINIMALITY, table not exhausted: the elements the script deletes+inserts are at most the "
+                  "deletions+insertions of ANY edit path from the origin to the far corner; proof: chain-cost invariant of the "
+                  "route table 2p+k / 2p-k+2delta, one walker step per change of diagonal, merge preserves the count). "
+                  "The model is tied to the code by comparing the complete diff tree (kinds, splits, payloads, nested "
                   "diffs, dict edit order, Old/New) on every pair of sequences over 3 letters up to length 4 (quick) / 5 "
                   "(thorough) as tuples, <=3/4 as lists, strings, bytes, mixed containers, nested tuples, dict pairs, depth-limit "
                   "cases, random longer sequences, and diffEnv on all subsets of the listed keys.",
     "level_note": "Trusted: Coq kernel; the Go harness's rendering of values and diffs; starlark's EqualDepth/Index/Slice are "
                   "modelled for None/int/string/bytes/tuple/list/dict only (no floats, sets, user types) and validated by the "
                   "sweep. The faithfulness theorems are stated for runs that return a script; the totality theorems show that every "
-                  "run returns a script or the EqualDepth depth error (route size >= 1). NOT proved: the upper-bound half of "
-                  "minimality (that the script recorded from the route chain costs exactly delta+2pf when the table is not "
-                  "exhausted); the missing lemma is the cost accounting of the route chain (an entry made in iteration p on "
-                  "diagonal k is reached with 2p+k, resp. 2p-k+2delta, non-diagonal steps) carried through the walker and "
-                  "the merge; a common suffix is not always a trailing Common "
+                  "run returns a script or the EqualDepth depth error (route size >= 1). Minimality is proved for the non-exhausted table only (after exhaustion the script is "
+                  "not minimal: known finding); a common suffix is not always a trailing Common "
                   "edit (ex_suffix_not_trailing). Absence of None entries in "
                   "replace payloads holds only for minimal scripts (not proved; swept) and fails after route-table exhaustion "
                   "(known finding, shown on the real code by a crafted 1500x1700 pair). Pickle stamps in diffEnv are an input "
